@@ -36,9 +36,11 @@ func jsUnescape(s string) (string, bool) {
 
 func replayC03(r *Run, o *Obligation) *ReplayResult {
 	langs := []string{"SAFE_IN_SQ", "SAFE_IN_DQ", "SAFE_IN_BACKTICK", "NO_SCRIPT_END"}
+	replayErr := ""
 	check := func(ins []string) (string, string, bool) {
 		outs, err := r.evalStringFunc("runtime", "runtime", "", `func(s string) string { r, err := ScriptContentInsideStringLiteral(s); if err != nil { panic(err) }; return r }`, ins)
 		if err != nil {
+			replayErr = err.Error()
 			return "", err.Error(), false
 		}
 		for i, in := range ins {
@@ -74,5 +76,5 @@ func replayC03(r *Run, o *Obligation) *ReplayResult {
 	if in, detail, bad := check(ins); bad {
 		return &ReplayResult{Confirmed: true, Input: "bounded search: " + strconv.Quote(in), Detail: "REPLAY-CONFIRMED " + detail}
 	}
-	return &ReplayResult{Confirmed: false, Input: fmt.Sprintf("bounded search over %d strings (JS-adversarial alphabet, length <= 3, plus known vectors)", len(ins)), Detail: "REPLAY-NOT-REPRODUCED"}
+	return &ReplayResult{Confirmed: false, Input: fmt.Sprintf("bounded search over %d strings (JS-adversarial alphabet, length <= 3, plus known vectors)", len(ins)), Detail: "REPLAY-NOT-REPRODUCED" + map[bool]string{true: " (replay harness error: " + firstLines(replayErr, 3) + ")", false: ""}[replayErr != ""]}
 }
